@@ -23,28 +23,58 @@ type handle struct {
 	rest   []string // iterator: keys still to come, first = current
 	closed bool
 	opened int
+	rewinds int // iterator: backward seeks after exhaustion so far
 }
 
 func (e *Exec) snapOpen(op Op) {
 	h := &handle{kind: op.S, opened: e.opIdx}
 	switch op.S {
-	case "coll", "iter":
-		if !e.collOpen {
-			return
+	case "coll", "iter", "storeIter":
+		var ss moss.Snapshot
+		var err error
+		if op.S == "storeIter" {
+			if e.store == nil {
+				return
+			}
+			simrt.NoPreempt(true)
+			j := e.checkStore("store-snapshot")
+			ss, err = e.store.Snapshot()
+			simrt.NoPreempt(false)
+			h.want = e.hist.Models[j].Clone()
+		} else {
+			if !e.collOpen {
+				return
+			}
+			ss, err = e.coll.Snapshot()
+			h.want = e.hist.Last().Clone()
 		}
-		ss, err := e.coll.Snapshot()
-		if err != nil {
+		if err != nil || ss == nil {
 			e.fail("snapshot-error", "Snapshot: %v", err)
 		}
 		h.ss = ss
-		h.want = e.hist.Last().Clone()
-		if op.S == "iter" {
+		if op.S != "coll" {
 			it, err := ss.StartIterator(nil, nil, moss.IteratorOptions{})
 			if err != nil {
 				e.fail("iterator-error", "StartIterator: %v", err)
 			}
+			if it == nil {
+				// a store without any segment hands out no iterator
+				if len(h.want.KV) > 0 {
+					e.failD("frozen-violated", map[string]string{"symptom": "missing", "where": "iterator"},
+						"StartIterator returned a nil iterator, the snapshot holds %d live keys", len(h.want.KV))
+				}
+				ss.Close()
+				return
+			}
 			h.it = it
 			h.rest = h.want.SortedKeys()
+			if op.Flag {
+				// the iterator alone must keep its data alive ("in every
+				// close order": the snapshot is closed first)
+				ss.Close()
+				h.ss = nil
+				e.probe("iterator-outlives-snapshot")
+			}
 			for i := 0; i < op.N && len(h.rest) > 0; i++ {
 				e.iterStep(h)
 			}
@@ -108,6 +138,19 @@ func (e *Exec) iterStep(h *handle) {
 		if err != moss.ErrIteratorDone {
 			e.failD("frozen-violated", map[string]string{"symptom": "extra", "where": "iterator"},
 				"open iterator (since op %d) yields %q after its frozen content was exhausted (err=%v)", h.opened, string(k), err)
+		}
+		if keys := h.want.SortedKeys(); len(keys) > 0 && h.rewinds < 2 && simrt.Chance(0.5, "iter-rewind") {
+			// an exhausted iterator is still open: seek back into the range
+			// and walk it again
+			h.rewinds++
+			from := simrt.Choose(len(keys), "iter-rewind-to")
+			err := h.it.SeekTo([]byte(keys[from]))
+			if err != nil {
+				e.failD("frozen-violated", map[string]string{"symptom": "missing", "where": "iterator"},
+					"open iterator (since op %d): SeekTo(%q) after exhaustion: %v", h.opened, keys[from], err)
+			}
+			h.rest = keys[from:]
+			e.probe("iterator-rewound-after-exhaustion")
 		}
 		return
 	}
